@@ -191,7 +191,7 @@ class Elf(BinFormat):
                 c = self.readsection(s)
             if c:
                 if size != None:
-                    if isinstance(c, Str):
+                    if isinstance(c, StrTable):
                         c = c.data
                     data = c[offset : offset + size]
                 else:
